@@ -125,15 +125,33 @@ var intrinsicTable map[string]intrinsic
 func init() {
 	intrinsicTable = map[string]intrinsic{
 		// ------------------------------------------------------------ harness API
-		harnessPkg + ".Int":    func(in *Interp, fn *ssa.Function, a []Value, _ ssa.CallInstruction) Value { return in.newInput(argStr(a[0]), 64) },
-		harnessPkg + ".Int64":  func(in *Interp, fn *ssa.Function, a []Value, _ ssa.CallInstruction) Value { return in.newInput(argStr(a[0]), 64) },
-		harnessPkg + ".Uint64": func(in *Interp, fn *ssa.Function, a []Value, _ ssa.CallInstruction) Value { return in.newInput(argStr(a[0]), 64) },
-		harnessPkg + ".Uint32": func(in *Interp, fn *ssa.Function, a []Value, _ ssa.CallInstruction) Value { return in.newInput(argStr(a[0]), 32) },
-		harnessPkg + ".Rune":   func(in *Interp, fn *ssa.Function, a []Value, _ ssa.CallInstruction) Value { return in.newInput(argStr(a[0]), 32) },
-		harnessPkg + ".Int32":  func(in *Interp, fn *ssa.Function, a []Value, _ ssa.CallInstruction) Value { return in.newInput(argStr(a[0]), 32) },
-		harnessPkg + ".Uint16": func(in *Interp, fn *ssa.Function, a []Value, _ ssa.CallInstruction) Value { return in.newInput(argStr(a[0]), 16) },
-		harnessPkg + ".Uint8":  func(in *Interp, fn *ssa.Function, a []Value, _ ssa.CallInstruction) Value { return in.newInput(argStr(a[0]), 8) },
-		harnessPkg + ".Byte":   func(in *Interp, fn *ssa.Function, a []Value, _ ssa.CallInstruction) Value { return in.newInput(argStr(a[0]), 8) },
+		harnessPkg + ".Int": func(in *Interp, fn *ssa.Function, a []Value, _ ssa.CallInstruction) Value {
+			return in.newInput(argStr(a[0]), 64)
+		},
+		harnessPkg + ".Int64": func(in *Interp, fn *ssa.Function, a []Value, _ ssa.CallInstruction) Value {
+			return in.newInput(argStr(a[0]), 64)
+		},
+		harnessPkg + ".Uint64": func(in *Interp, fn *ssa.Function, a []Value, _ ssa.CallInstruction) Value {
+			return in.newInput(argStr(a[0]), 64)
+		},
+		harnessPkg + ".Uint32": func(in *Interp, fn *ssa.Function, a []Value, _ ssa.CallInstruction) Value {
+			return in.newInput(argStr(a[0]), 32)
+		},
+		harnessPkg + ".Rune": func(in *Interp, fn *ssa.Function, a []Value, _ ssa.CallInstruction) Value {
+			return in.newInput(argStr(a[0]), 32)
+		},
+		harnessPkg + ".Int32": func(in *Interp, fn *ssa.Function, a []Value, _ ssa.CallInstruction) Value {
+			return in.newInput(argStr(a[0]), 32)
+		},
+		harnessPkg + ".Uint16": func(in *Interp, fn *ssa.Function, a []Value, _ ssa.CallInstruction) Value {
+			return in.newInput(argStr(a[0]), 16)
+		},
+		harnessPkg + ".Uint8": func(in *Interp, fn *ssa.Function, a []Value, _ ssa.CallInstruction) Value {
+			return in.newInput(argStr(a[0]), 8)
+		},
+		harnessPkg + ".Byte": func(in *Interp, fn *ssa.Function, a []Value, _ ssa.CallInstruction) Value {
+			return in.newInput(argStr(a[0]), 8)
+		},
 		harnessPkg + ".IntByte": func(in *Interp, fn *ssa.Function, a []Value, _ ssa.CallInstruction) Value {
 			// a byte whose solver variable is a mathematical integer in [0,255] (for harnesses
 			// whose arithmetic is real/integer rather than bit-vector)
@@ -141,7 +159,9 @@ func init() {
 			in.assume(in.tt.And(in.tt.IBin(OpILe, in.tt.IConst(0), v), in.tt.IBin(OpILe, v, in.tt.IConst(255))))
 			return in.tt.Un(OpInt2BV, 8, v)
 		},
-		harnessPkg + ".Bool":   func(in *Interp, fn *ssa.Function, a []Value, _ ssa.CallInstruction) Value { return in.newInput(argStr(a[0]), SortBool) },
+		harnessPkg + ".Bool": func(in *Interp, fn *ssa.Function, a []Value, _ ssa.CallInstruction) Value {
+			return in.newInput(argStr(a[0]), SortBool)
+		},
 		harnessPkg + ".Bytes": func(in *Interp, fn *ssa.Function, a []Value, _ ssa.CallInstruction) Value {
 			n := int(a[1].(uint64))
 			s := make(Slice, n)
@@ -333,13 +353,13 @@ func init() {
 		},
 
 		// ------------------------------------------------------------ time
-		"time.Now":   intrNoop,
-		"time.Since": intrNoop,
-		"time.Until": intrNoop,
-		"time.Sleep": intrNoop,
+		"time.Now":        intrNoop,
+		"time.Since":      intrNoop,
+		"time.Until":      intrNoop,
+		"time.Sleep":      intrNoop,
 		"(time.Time).Sub": intrNoop, "(time.Time).After": intrNoop, "(time.Time).Before": intrNoop,
-		"(time.Time).Add": func(in *Interp, fn *ssa.Function, a []Value, _ ssa.CallInstruction) Value { return a[0] },
-		"(time.Time).IsZero": intrTrue,
+		"(time.Time).Add":        func(in *Interp, fn *ssa.Function, a []Value, _ ssa.CallInstruction) Value { return a[0] },
+		"(time.Time).IsZero":     intrTrue,
 		"(time.Duration).String": func(in *Interp, fn *ssa.Function, a []Value, _ ssa.CallInstruction) Value { return "0s" },
 		"time.AfterFunc": func(in *Interp, fn *ssa.Function, a []Value, _ ssa.CallInstruction) Value {
 			p := new(Value)
@@ -470,18 +490,34 @@ func init() {
 			return in.fmtInt(a[0], 64, true)
 		},
 		"github.com/creack/pty.Setsize": intrNoop,
-		"sort.Slice":       intrSortSlice,
-		"sort.SliceStable": intrSortSlice,
+		"sort.Slice":                    intrSortSlice,
+		"sort.SliceStable":              intrSortSlice,
 
 		// ------------------------------------------------------------ math (concrete only)
-		"math.Float64bits":     func(in *Interp, fn *ssa.Function, a []Value, _ ssa.CallInstruction) Value { return math.Float64bits(concF(in, a[0])) },
-		"math.Float64frombits": func(in *Interp, fn *ssa.Function, a []Value, _ ssa.CallInstruction) Value { return math.Float64frombits(in.concInt(a[0])) },
-		"math.Float32bits":     func(in *Interp, fn *ssa.Function, a []Value, _ ssa.CallInstruction) Value { return uint64(math.Float32bits(float32(concF(in, a[0])))) },
-		"math.Floor":           func(in *Interp, fn *ssa.Function, a []Value, _ ssa.CallInstruction) Value { return math.Floor(concF(in, a[0])) },
-		"math.Ceil":            func(in *Interp, fn *ssa.Function, a []Value, _ ssa.CallInstruction) Value { return math.Ceil(concF(in, a[0])) },
-		"math.Round":           func(in *Interp, fn *ssa.Function, a []Value, _ ssa.CallInstruction) Value { return math.Round(concF(in, a[0])) },
-		"math.Trunc":           func(in *Interp, fn *ssa.Function, a []Value, _ ssa.CallInstruction) Value { return math.Trunc(concF(in, a[0])) },
-		"math.Sqrt":            func(in *Interp, fn *ssa.Function, a []Value, _ ssa.CallInstruction) Value { return math.Sqrt(concF(in, a[0])) },
+		"math.Float64bits": func(in *Interp, fn *ssa.Function, a []Value, _ ssa.CallInstruction) Value {
+			return math.Float64bits(concF(in, a[0]))
+		},
+		"math.Float64frombits": func(in *Interp, fn *ssa.Function, a []Value, _ ssa.CallInstruction) Value {
+			return math.Float64frombits(in.concInt(a[0]))
+		},
+		"math.Float32bits": func(in *Interp, fn *ssa.Function, a []Value, _ ssa.CallInstruction) Value {
+			return uint64(math.Float32bits(float32(concF(in, a[0]))))
+		},
+		"math.Floor": func(in *Interp, fn *ssa.Function, a []Value, _ ssa.CallInstruction) Value {
+			return math.Floor(concF(in, a[0]))
+		},
+		"math.Ceil": func(in *Interp, fn *ssa.Function, a []Value, _ ssa.CallInstruction) Value {
+			return math.Ceil(concF(in, a[0]))
+		},
+		"math.Round": func(in *Interp, fn *ssa.Function, a []Value, _ ssa.CallInstruction) Value {
+			return math.Round(concF(in, a[0]))
+		},
+		"math.Trunc": func(in *Interp, fn *ssa.Function, a []Value, _ ssa.CallInstruction) Value {
+			return math.Trunc(concF(in, a[0]))
+		},
+		"math.Sqrt": func(in *Interp, fn *ssa.Function, a []Value, _ ssa.CallInstruction) Value {
+			return math.Sqrt(concF(in, a[0]))
+		},
 		"math.Abs": func(in *Interp, fn *ssa.Function, a []Value, _ ssa.CallInstruction) Value {
 			if t, ok := a[0].(*Term); ok {
 				z := in.tt.RConst(ratZero)
@@ -515,7 +551,7 @@ func init() {
 		},
 
 		// ------------------------------------------------------------ atomic functions
-		"sync/atomic.AddInt32":  intrAtomicAdd, "sync/atomic.AddInt64": intrAtomicAdd,
+		"sync/atomic.AddInt32": intrAtomicAdd, "sync/atomic.AddInt64": intrAtomicAdd,
 		"sync/atomic.AddUint32": intrAtomicAdd, "sync/atomic.AddUint64": intrAtomicAdd,
 		"sync/atomic.LoadInt32": intrAtomicLoad, "sync/atomic.LoadInt64": intrAtomicLoad,
 		"sync/atomic.LoadUint32": intrAtomicLoad, "sync/atomic.LoadUint64": intrAtomicLoad,
